@@ -4,6 +4,7 @@ import (
 	"context"
 	"encoding/json"
 	"fmt"
+	"github.com/attestantio/dirk/services/ruler"
 	"os"
 	"os/exec"
 	"runtime"
@@ -119,6 +120,7 @@ func newC06Rig() (*c06Rig, error) {
 			Checker:  func(c checker.Service) checker.Service { return &rig.FaultyChecker{Service: c, Env: r.env} },
 			Unlocker: func(u unlocker.Service) unlocker.Service { return &rig.FaultyUnlocker{Service: u, Env: r.env} },
 			Rules:    func(s rules.Service) rules.Service { return &rig.FaultyRules{Service: s, Env: r.env} },
+			Ruler:    func(s ruler.Service) ruler.Service { return &rig.FaultyRuler{Service: s, Env: r.env} },
 		},
 	})
 	if err != nil {
